@@ -5,6 +5,7 @@ package h
 import (
 	ucfg "github.com/elastic/go-ucfg"
 	"github.com/elastic/go-ucfg/diff"
+	"github.com/elastic/go-ucfg/parse"
 
 	"vharness/verif"
 )
@@ -301,4 +302,57 @@ func H_C08_triple() {
 	} else {
 		verif.Assert(err != nil, "C08/triple: re-entered or unresolvable reference is an error")
 	}
+}
+
+// H_C08_resolver: values handed out by a resolver may contain references themselves (a list or an
+// object parsed from the resolver's text is expanded like configuration data). A resolver that
+// knows a name may absorb the cyclic-reference error for that name - but reading must finish.
+func H_C08_resolver() {
+	answers := []string{"v", "${X}", "[${X}]", "[a, ${X}]", "[${Y}]", "{k: '${X}'}", "[[${X}]]"}
+	ax := answers[verif.Choice("X", len(answers))]
+	ay := answers[verif.Choice("Y", 3)]
+	resolver := func(name string) (string, parse.Config, error) {
+		switch name {
+		case "X":
+			return ax, parse.DefaultConfig, nil
+		case "Y":
+			return ay, parse.DefaultConfig, nil
+		}
+		return "", parse.DefaultConfig, ucfg.ErrMissing
+	}
+	opts := []ucfg.Option{ucfg.VarExp, ucfg.PathSep("."), ucfg.Resolve(resolver)}
+	var in map[string]interface{}
+	switch verif.Choice("config", 3) {
+	case 0:
+		in = map[string]interface{}{"a": "${X}"}
+	case 1:
+		in = map[string]interface{}{"X": "${X}"} // the setting has the name of the variable: the resolver absorbs the cycle
+	case 2:
+		in = map[string]interface{}{"a": "pre-${X}", "b": "${X}"}
+	}
+	c, err := ucfg.NewFrom(in, opts...)
+	verif.Assume(err == nil)
+	switch verif.Choice("entry", 5) {
+	case 0:
+		var m map[string]interface{}
+		c.Unpack(&m, opts...)
+	case 1:
+		for k := range in {
+			s, err := c.String(k, -1, opts...)
+			if k == "X" && ax == "v" {
+				verif.Assert(err == nil && s == "v", "C08/resolver: a resolver that knows the name absorbs the self reference")
+			}
+		}
+	case 2:
+		c.FlattenedKeys(opts...)
+	case 3:
+		for k := range in {
+			c.CountField(k, opts...)
+			c.Has(k+".0", -1, opts...)
+			c.Child(k, -1, opts...)
+		}
+	case 4:
+		diff.CompareConfigs(c, c, opts...)
+	}
+	verif.Reach("resolver graph read")
 }
